@@ -8,17 +8,22 @@
      buffet: a binding's traffic depends only on its own accesses, for every interleaving
                                                 C17_buffet_binding, C17_schedule_interleaves,
                                                 C17_buffet_run_binding                 full
-     buffet fills / write-backs = window counts                                        NOT PROVED (see below)
+     buffet fills / write-backs = window counts C17_buffet_machine (one binding, any window-sorted
+                                                access sequence), C17_buffet_fills_writebacks
+                                                (the model's observation, per tensor)  full
      bounds (distinct lines <= fills <= reads)  C17_bounds (about the window-count spec) full
      line granularity                           C17_line_granular                      full
      cache = furthest-next-use with bypass                                             NOT PROVED; refuted
                                                 C17_cache_tie_refuted under equal next-use stamps
-     oracle on the model                        C17_model_meets_spec_partial (filter + combine)
-   The clauses that are not proved stay decided on every run by the oracle [c17_holds]
-   (evaluated on the implementation's output: verdict bit 1, and on the model's: bit 4). *)
+     oracle on the model                        C17_model_meets_spec: every clause except the cache
+                                                clause, which is a hypothesis (trivial without
+                                                cache runs: C17_model_meets_spec_no_cache)
+   The cache clause stays decided on every run by the oracle [c17_holds] (evaluated on the
+   implementation's output: verdict bit 1, and on the model's: bit 4). *)
 From Coq Require Import ZArith List Bool.
 From FT Require Import Model.Base Model.Obs Model.C17Traffic Model.C17Check
-                       Proofs.ObsP Proofs.C17TrafficP Proofs.C17CheckP Proofs.C17SchedP.
+                       Proofs.ObsP Proofs.C17TrafficP Proofs.C17CheckP Proofs.C17SchedP
+                       Proofs.C17BuffetP Proofs.C17LiftP.
 Import ListNotations.
 Open Scope Z_scope.
 
@@ -82,14 +87,32 @@ Theorem C17_buffet_run_binding : forall es cap line nord rem i,
 Proof. exact buffet_run_binding. Qed.
 Print Assumptions C17_buffet_run_binding.
 
-(* NOT PROVED (kept as the oracle clause [buffet_ok], evaluated on every case):
-     C17_buffet_fills_writebacks : forall c, c17_wf c = true ->
-       V_eqb (vnth 0 (model_buffet c)) (spec_buffet c) = true
-   i.e. for stamp-sorted traces with correct next-use annotations
-       b_rd = line * spec_fills e [] acc   and   b_wr = line * spec_wbs e [] acc.
-   Missing: the drain invariant (objects of a binding leave in insertion order, the dictionary
-   is empty whenever the eviction window changes, a ready line is never accessed again) and the
-   per-tensor sums over the bucket-sorted bindings. *)
+(* the buffet state machine of one binding (bstep = the main loop's body with the buffet
+   callbacks, incl. the in-order drain): for ANY access sequence whose eviction windows are
+   non-decreasing and whose next-use stamps are those of the next access to the same line, the
+   machine ends with an empty buffer and has charged
+     line * #{(line, window) | the first access of the pair is a read}           (afills)
+     line * #{(line, window) | the pair contains a write to be written back}     (awbs)
+   Proof: Proofs/C17BuffetP.v — invariant: sequence numbers of the dictionary are exactly
+   [drain pointer, counter), ready lines are in the dictionary, a line is live iff its next
+   access lies in the current window, ready lines are never accessed again, the dictionary is
+   empty when the window changes, dirty = "a write-back access occurred in this window". *)
+Theorem C17_buffet_machine : forall e line acc,
+  sortedL e acc -> nextok acc ->
+  let s := fold_left (bstep e line) acc bst0 in
+  b_rd s = line * afills e [] acc /\ b_wr s = line * awbs e [] acc /\ b_objs s = [].
+Proof. exact buffet_machine_spec. Qed.
+Print Assumptions C17_buffet_machine.
+
+(* ... and lifted to the model's observation: for every well-formed case the per-tensor read and
+   write bits of the buffet run are the oracle's window counts (spec_fills / spec_wbs over the
+   stably merged traces, summed over the tensor's bindings); writes into the staging area
+   (pos >= shape of the bound rank, binding not evicted on its own rank) are never written back
+   because s_wb excludes them *)
+Theorem C17_buffet_fills_writebacks : forall c, c17_wf c = true ->
+  vnth 0 (model_buffet c) = spec_buffet c.
+Proof. exact buffet_fills_writebacks. Qed.
+Print Assumptions C17_buffet_fills_writebacks.
 
 (* the window counts themselves obey the bounds of the property: at least one fill per distinct
    line whose first access is a read (window = whole run, e = 0), at most one per read *)
@@ -121,16 +144,20 @@ Theorem C17_cache_tie_refuted :
 Proof. exact cache_tie_refuted. Qed.
 Print Assumptions C17_cache_tie_refuted.
 
-(* the faithful model meets the filter and combine clauses of the oracle for every well-formed
-   case.  Full statement, not proved:
-     C17_model_meets_spec : forall c, c17_wf c = true -> c17_region c = 0 ->
-       holds c17_checker c (model c17_checker c) = true
-   (missing: C17_buffet_fills_writebacks and C17_cache_refines_min above). *)
-Theorem C17_model_meets_spec_partial : forall c, c17_wf c = true ->
-  V_eqb (vnth 0 (model c17_checker c)) (spec_filter_V c)
-  && V_eqb (vnth 1 (model c17_checker c)) (spec_comb_V c) = true.
-Proof. exact model_meets_filter_combine. Qed.
-Print Assumptions C17_model_meets_spec_partial.
+(* the faithful model meets the oracle: filter, combine, buffet fills/write-backs and the
+   no-temporary-file clauses are proved for every well-formed case; the cache clause
+   (C17_cache_refines_min, not proved) is the remaining hypothesis *)
+Theorem C17_model_meets_spec : forall c, c17_wf c = true ->
+  cache_ok c (vnth 3 (model c17_checker c)) = true ->
+  holds c17_checker c (model c17_checker c) = true.
+Proof. exact model_meets_modulo_cache. Qed.
+Print Assumptions C17_model_meets_spec.
+
+(* without cache runs nothing is assumed *)
+Theorem C17_model_meets_spec_no_cache : forall c, c17_wf c = true -> k_caps c = [] ->
+  holds c17_checker c (model c17_checker c) = true.
+Proof. exact model_meets_no_cache. Qed.
+Print Assumptions C17_model_meets_spec_no_cache.
 
 (* non-vacuity: a well-formed two-binding case (read+write with a staging-area write, evict on an
    outer rank, two elements per line) in region 0 on which the model meets the whole oracle *)
